@@ -4,9 +4,16 @@ import json, glob, os, sys
 root = os.path.dirname(os.path.abspath(__file__))
 base = json.load(open(os.path.join(root, "manifest_base.json")))
 checks = []
+landed = open(os.path.join(root, "harness/props/props.go")).read()
+findings = []
 for p in sorted(glob.glob(os.path.join(root, "harness/props/*/meta.json"))):
     m = json.load(open(p))
     pid = m["property_id"]
+    if '"verif/props/%s"' % pid.lower() not in landed:
+        continue
+    fp = os.path.join(os.path.dirname(p), "findings.json")
+    if os.path.exists(fp):
+        findings += json.load(open(fp))
     c = {
         "property_id": pid,
         "quick_cmd": m.get("quick_cmd", "./check %s quick" % pid),
@@ -28,5 +35,10 @@ for pid in props:
     if pid not in claimed:
         na.append({"property_id": pid, "reason": na_reasons.get(pid, "no check built yet in this framework (work in progress); not claimed")})
 base["not_applicable"] = na
+base["hooks"]["source_commits"] = [l.split()[0] for l in os.popen("git -C /repo log --format='%h %s' --grep='^verif hooks' ").read().splitlines()]
+for e in base["engines"]:
+    e["serves_properties"] = sorted(claimed)
 json.dump(base, open(os.path.join(root, "MANIFEST.json"), "w"), indent=1)
+kf = {"comment": "Genuine defects of the pinned tree, merged from harness/props/*/findings.json by gen_manifest.py. status=open: recorded, witness replayed on every run (prints KNOWN-FINDING while it still fails); 'scope' names the generator predicate that keeps the random sweep off exactly that construct. status=fixed: repaired by the named fix: commit in /repo; suppresses nothing, witness replayed as a regression case.", "findings": findings}
+json.dump(kf, open(os.path.join(root, "known_findings.json"), "w"), indent=1)
 print("MANIFEST.json: %d checks, %d not_applicable" % (len(checks), len(na)))
